@@ -455,10 +455,18 @@ def run(ctx):
     R5 = "C08.R5"
     run.rule(R5, "JSON omission rules: every skip_serializing_if has a default whose value satisfies the skip predicate", floor=12)
     mods = {V4: "slate_versions::v4", SPT: "slatepack::types"}
-    for adt_id in (V4 + "SlateV4", V4 + "ParticipantDataV4", V4 + "PaymentInfoV4", V4 + "CommitsV4", SPT + "Slatepack", SPT + "SlatepackEncMetadata"):
-        adt = db.adts.get(adt_id)
-        if not adt:
+    must_have = (V4 + "SlateV4", V4 + "ParticipantDataV4", V4 + "PaymentInfoV4", V4 + "CommitsV4", SPT + "Slatepack", SPT + "SlatepackEncMetadata")
+    for adt_id in must_have:
+        if adt_id not in db.adts:
             run.error("C08.R5: %s not found" % adt_id)
+    # every workspace type that omits a field on encode (slate forms, slatepacks, stored wallet records, API types)
+    all_ids = sorted(a for a in db.adts if a.startswith("grin_wallet") and db.adts[a].get("variants"))
+    for adt_id in all_ids:
+        adt = db.adts.get(adt_id)
+        try:
+            if not any("skip_serializing_if" in db.field_attr_text(adt_id, fld["name"]) for v_ in adt["variants"] for fld in v_["fields"]):
+                continue
+        except Exception:
             continue
         modp = adt_id.rsplit("::", 1)[0] + "::"
         for fld in adt["variants"][0]["fields"]:
